@@ -358,6 +358,65 @@ def run_cases(chunk, R):
         run_case(case, R)
 
 
+def capacity_cases(tier):
+    """Every (k, n) with 9 <= n <= 16 whose number of possible constraints is
+    at most 70 000 (quick) / 120 000 (thorough): asking for exactly that many
+    must succeed, asking for one more must be refused."""
+    lim = 120000 if tier == 'thorough' else 70000
+    cs = []
+    for n in range(9, 17):
+        for k in range(1, n + 1):
+            if math.comb(n, k) * 2 ** k <= lim:
+                cs.append({'kind': 'kcnf', 'k': k, 'n': n, 'capacity': math.comb(n, k) * 2 ** k})
+            if math.comb(n, k) * 2 * 2 ** max(k - 1, 0) <= lim:        # clauses of the encoding
+                cs.append({'kind': 'kxor', 'k': k, 'n': n, 'capacity': math.comb(n, k) * 2})
+    return cs
+
+
+def check_capacity(case):
+    """One run under a real seeded generator (a script as good as any other
+    for this question): the exact maximum is accepted and delivered in full,
+    one more is refused."""
+    from cnfgen.families.randomformulas import RandomKCNF
+    from cnfgen.families.randomkxor import RandomKXOR
+    kind, k, n, cap = case['kind'], case['k'], case['n'], case['capacity']
+    gen = RandomKCNF if kind == 'kcnf' else RandomKXOR
+    base = 'Random' + ('KXOR' if kind == 'kxor' else 'KCNF')
+    out = []
+    try:
+        F = gen(k, n, cap, seed=1)
+    except ValueError as e:
+        return [{'key': base + ':spurious-refusal',
+                 'what': 'refused although k=%d<=n=%d and m=%d is exactly the number of possible '
+                         'constraints: %s' % (k, n, cap, e), 'case': dict(case)}]
+    except Exception as e:
+        return [{'key': base + ':exception:' + type(e).__name__, 'what': repr(e), 'case': dict(case)}]
+    cls = [frozenset(c) for c in F.clauses()]
+    want = cap if kind == 'kcnf' else cap * 2 ** (k - 1)
+    if len(cls) != want or len(set(cls)) != want or any(len(c) != k for c in cls):
+        out.append({'key': base + ':count', 'what': '(k,n,m)=(%d,%d,%d): %d clauses, %d distinct, expected %d'
+                    % (k, n, cap, len(cls), len(set(cls)), want), 'case': dict(case)})
+    try:
+        gen(k, n, cap + 1, seed=1)
+        out.append({'key': base + ':missing-refusal', 'what': '(k,n)=(%d,%d): m=%d is one more than the '
+                    'number of possible constraints and was accepted' % (k, n, cap + 1), 'case': dict(case)})
+    except ValueError:
+        pass
+    except Exception as e:
+        out.append({'key': base + ':exception:' + type(e).__name__, 'what': repr(e), 'case': dict(case)})
+    return out
+
+
+def run_capacity(chunk, R):
+    for case in chunk:
+        R.extend(check_capacity(case))
+        R.stats['capacity_boundaries'] += 1
+        R.stats['executions'] += 2
+        R.outcomes['returned_formula'] += 1
+        R.outcomes['raised_ValueError'] += 1
+        R.case(sample=case if R.evals % 40 == 0 else None, nontrivial=True)
+
+
 def run_differential(chunk, R):
     """Soundness of state hashing: same set of outcomes with and without."""
     for case in chunk:
@@ -384,6 +443,8 @@ def run_differential(chunk, R):
 
 
 def replay(case):
+    if 'capacity' in case:
+        return check_capacity(case)
     body = make_body(case)
     x = xp.replay(body, case['choices'])
     vs, _ = judge(case, x)
@@ -514,4 +575,9 @@ def shards(tier, seed):
         out.append(('l%03d' % (i // 12), 'run_cases', light[i:i + 12]))
     for i, c in enumerate(diff_cases(tier)):
         out.append(('d%03d' % i, 'run_differential', [c]))
+    cc = capacity_cases(tier)
+    cc.sort(key=lambda c: -c['capacity'])
+    for i in range(16):
+        if cc[i::16]:
+            out.append(('cap%02d' % i, 'run_capacity', cc[i::16]))
     return out
